@@ -811,3 +811,62 @@ def unit_bit_lemmas(eng):
     for o in r["obligations"]:
         o["kind"] = "lemma"
     return r
+
+
+# ---------------------------------------------------------------- register numbers written '%e' inside addressing forms (C08: exception freedom, finding D7)
+PCT_SHAPES = ["(%e)", "@%e", "(%e)+", "@(%e)+", "-(%e)", "@-(%e)", "x(%e)", "@x(%e)", "@(%e)"]
+PCT_MODE = {"(%e)": 1, "@%e": 1, "(%e)+": 2, "@(%e)+": 3, "-(%e)": 4, "@-(%e)": 5, "x(%e)": 6, "@x(%e)": 7, "@(%e)": 7}
+
+
+def pct_shape(eng, shape):
+    n, nv = leaf_value(eng, "n")
+    reg = op(eng, "register", n)
+    if shape == "(%e)":
+        return paren(eng, reg), nv
+    if shape == "@%e":
+        return op(eng, "deferred", reg), nv
+    if shape == "(%e)+":
+        return op(eng, "postadd", paren(eng, reg)), nv
+    if shape == "@(%e)+":
+        return op(eng, "deferred", op(eng, "postadd", paren(eng, reg))), nv
+    if shape == "-(%e)":
+        return op(eng, "neg", paren(eng, reg)), nv
+    if shape == "@-(%e)":
+        return op(eng, "deferred", op(eng, "neg", paren(eng, reg))), nv
+    if shape == "x(%e)":
+        x, _ = leaf_value(eng, "e")
+        return op(eng, "call", x, reg), nv
+    if shape == "@x(%e)":
+        x, _ = leaf_value(eng, "e")
+        return op(eng, "deferred", op(eng, "call", x, reg)), nv
+    if shape == "@(%e)":
+        return op(eng, "deferred", paren(eng, reg)), nv
+    raise ValueError(shape)
+
+
+def unit_rm_pct(eng, shape, reg_lazy):
+    """addressing forms whose register is written %e; reg_lazy: the value of e is not yet known when the operand is first encoded"""
+    name = "RegisterModeOperandStub.encode[%s,register-%s]" % (shape, "lazy" if reg_lazy else "ready")
+
+    def run(eng):
+        install(eng, "wait", "get_as_int", "try_as_register")
+        eng.reg_lazy = "lazy" if reg_lazy else "eager"
+        eng.I = {}
+        tok, nv = pct_shape(eng, shape)
+        eng.I["n"] = nv
+        stub = stub_obj(eng, "RegisterModeOperandStub", "s", [5, 4, 3, 2, 1, 0])
+        return eng.call(Bound(stub, stub.cls.lookup("encode")), [tok, state_for(eng, int_input(eng, "rel"))], {})
+
+    def post(eng, o):
+        kind, val = o
+        n = eng.I["n"]
+        if kind == "raise":
+            region = True if (reg_lazy and "D7" in common.ACTIVE_FINDINGS) else None
+            eng.prove("only-RecoverableError-escapes-and-only-after-an-error-report(no TypeError for a register number known later)", val.cls == "RecoverableError" and len(errors(eng)) >= 1, region=region)
+            return
+        if not errors(eng):
+            eng.prove("mode-register-field", z3.And(n >= 0, n < 8, final(val[0]) == PCT_MODE[shape] * 8 + n))
+    r = verify(eng, name, run, post, func="insns.RegisterModeOperandStub.encode")
+    for o_ in r["obligations"]:
+        o_["cfg"] = dict(kind="pct", shape=shape, reg_lazy=reg_lazy)
+    return r
